@@ -61,9 +61,28 @@ def cases(draw):
         case["decoy"] = draw(gen.problem_recipe(dims=(recipe["n"],) if draw(st.booleans()) else (1, 2, 3), styles=True))
         # the other solver may be handed the very SolverParameters object of this one (same dimension only)
         case["decoy_shares_params"] = case["decoy"]["n"] == recipe["n"] and draw(st.booleans())
+        if case["decoy_shares_params"] and draw(st.booleans()):
+            # the next problem of a series: the same objective with its minimiser moved a little (a new problem
+            # object), solved with the same parameters object
+            obj = dict(recipe["obj"])
+            if isinstance(obj.get("p"), list) and obj["p"] and not isinstance(obj["p"][0], list):
+                d = draw(st.sampled_from([1e-3, 3e-3, 1e-2]))
+                obj["p"] = [min(1.0, max(0.0, v + d * (1 if i % 2 else -1))) for i, v in enumerate(obj["p"])]
+            case["decoy"] = dict(recipe, obj=obj)
     sp = draw(gen.start_points(recipe))
     if sp is not None:
         case["params"] = dict(params, startPoint=sp)
+        obj = dict(recipe["obj"])
+        if draw(st.booleans()) and isinstance(obj.get("p"), list) and obj["p"] and not isinstance(obj["p"][0], list):
+            # a series of similar problems solved with ONE parameters object that carries the start point and asks
+            # for refinement: the next problem has its minimiser moved a little
+            d = draw(st.sampled_from([1e-3, 3e-3, 1e-2]))
+            obj["p"] = [min(1.0, max(0.0, v + d * (1 if i % 2 else -1))) for i, v in enumerate(obj["p"])]
+            case["decoy"] = dict(recipe, obj=obj)
+            case["decoy_shares_params"] = True
+            case["refine"] = True
+            if case["ops"][-1] != "solve":
+                case["ops"] = list(case["ops"]) + ["solve"]
     return case
 
 
